@@ -184,7 +184,8 @@ int main(int argc, char ** argv) {
   myth_globalattr_t ga; myth_globalattr_init(&ga); myth_globalattr_set_n_workers(&ga, W);
   myth_init_ex(&ga);
   ctl_init(W);
-  if (ctl_log) setvbuf(ctl_log, 0, _IOLBF, 0);      /* keep the trace if the library crashes */
+  if (ctl_log) setvbuf(ctl_log, 0, _IOLBF, 0);      /* keep the trace and the schedule if the library crashes */
+  if (ctl_sched_out) setvbuf(ctl_sched_out, 0, _IOLBF, 0);
   g_myth_verif_hook = uc_hook;
   int nv = MODE == 0 ? NP : 1;
   for (int i = 0; i < nv; i++) { myth_uncond_init(&uv[i]); ctl_name_obj_kind(&uv[i], i + 1, "uncond"); }
